@@ -2,6 +2,9 @@ package props
 
 import (
 	"fmt"
+	"github.com/shopspring/decimal"
+	"github.com/tyler-sommer/stick"
+	"math"
 	"math/rand"
 	"strconv"
 	"strings"
@@ -49,6 +52,28 @@ type seqKind struct {
 	// build returns the sequence expression and the context entries for length n
 	build func(n int) (gen.Expr, map[string]interface{})
 	maxN  int
+}
+
+type c06truth struct {
+	label string
+	v     interface{}
+	want  bool
+}
+
+func c06Truth() []c06truth {
+	i5, s := 5, "s"
+	var np *int
+	return []c06truth{
+		{"int -1", -1, false}, {"int64 -5", int64(-5), false}, {"float -2.5", -2.5, false}, {"float -0", math.Copysign(0, -1), false}, {"float 1e-300", 1e-300, true}, {"NaN", math.NaN(), false}, {"+Inf", math.Inf(1), true}, {"-Inf", math.Inf(-1), false},
+		{"uint8 0", uint8(0), false}, {"uint8 200", uint8(200), true}, {"int8 -128", int8(-128), false}, {"uint64 max", uint64(math.MaxUint64), true}, {"float32 0.5", float32(0.5), true}, {"float32 0", float32(0), false},
+		{"decimal 0", decimal.Zero, false}, {"decimal -1", decimal.NewFromInt(-1), false}, {"decimal -0.5", decimal.NewFromFloat(-0.5), false}, {"decimal 2.5", decimal.NewFromFloat(2.5), true}, {"decimal 1e-9", decimal.New(1, -9), true},
+		{"string 0", "0", true}, {"string blank", " ", true}, {"string false", "false", true}, {"string NUL", "\x00", true},
+		{"Stringer s", gen.ValStringer{S: "s"}, true}, {"Stringer empty", gen.ValStringer{S: ""}, false}, {"Number 2", gen.ValNumber{N: 2}, true}, {"Number -2", gen.ValNumber{N: -2}, false}, {"Number 0", gen.ValNumber{N: 0}, false},
+		{"Boolean true", gen.ValBoolean{B: true}, true}, {"Boolean false", gen.ValBoolean{B: false}, false},
+		{"defined bool", gen.NamedBool(true), true}, {"defined int 0", gen.KeyInt(0), false}, {"defined int -3", gen.KeyInt(-3), false}, {"defined string", gen.KeyStr("x"), true}, {"defined empty string", gen.KeyStr(""), false}, {"defined float", gen.NamedF64(0.25), true},
+		{"safe true", stick.NewSafeValue(true, "html"), true}, {"safe empty", stick.NewSafeValue("", "html"), false}, {"safe -1", stick.NewSafeValue(-1, "js"), false}, {"safe decimal -1", stick.NewSafeValue(decimal.NewFromInt(-1), "html"), false},
+		{"slice", []int{1}, false}, {"empty slice", []int{}, false}, {"map", map[string]int{"a": 1}, false}, {"struct", gen.Inner{Name: "n"}, false}, {"*int", &i5, false}, {"*string", &s, false}, {"nil *int", np, false}, {"func", func() {}, false},
+	}
 }
 
 func c06SeqKinds() []seqKind {
@@ -167,6 +192,23 @@ func (p *c06) Init(tier string, seed int64) {
 		p.enum = append(p.enum, func() (*Program, string) {
 			n := &gen.NIf{Conds: []gen.Expr{nm("c")}, Bodies: [][]gen.Node{{tx("T")}}, HasElse: true, Else: []gen.Node{tx("F")}}
 			return mkProg(map[string]interface{}{"c": cv}, n), fmt.Sprintf("if/truth/%d", ci)
+		})
+	}
+	// ... and of every carrier of a condition value the library knows, against the documented rule written out by
+	// hand (numbers: greater than zero; strings and Stringers: not empty; Boolean: what it says; containers,
+	// structs, nil: false; a safe wrapper: what it wraps)
+	for ci, tc := range c06Truth() {
+		ci, tc := ci, tc
+		p.enum = append(p.enum, func() (*Program, string) {
+			c := nm("c")
+			tf := func(e gen.Expr) gen.Node {
+				return &gen.NIf{Conds: []gen.Expr{e}, Bodies: [][]gen.Node{{tx("T")}}, HasElse: true, Else: []gen.Node{tx("F")}}
+			}
+			body := []gen.Node{tf(c), tx("|"), tf(&gen.EUn{Op: "not", X: c}), tx("|"), pr(&gen.ETern{C: c, A: str("T"), B: str("F")}), tx("|"),
+				&gen.NFor{Val: "x", Seq: &gen.EArr{Els: []gen.Expr{num(1), num(2)}}, Cond: c, Body: []gen.Node{tx("y")}}, tx("|"),
+				&gen.NIf{Conds: []gen.Expr{nm("f"), c}, Bodies: [][]gen.Node{{tx("a")}, {tx("b")}}, HasElse: true, Else: []gen.Node{tx("d")}}, tx("|"),
+				tf(&gen.EBin{Op: "and", L: c, R: &gen.EBool{V: true}}), tx("|"), tf(&gen.EBin{Op: "or", L: &gen.EBool{V: false}, R: c})}
+			return mkProg(map[string]interface{}{"c": tc.v, "f": false}, body...), fmt.Sprintf("if/truth-carrier/%d/%s", ci, tc.label)
 		})
 	}
 	// --- loops: sequence kind x length x form ---
@@ -475,6 +517,26 @@ func (p *c06) Describe(i int) interface{} {
 }
 
 func (p *c06) Run(i int) (res fw.Result) {
+	if i < len(p.enum) {
+		if prog, sig := p.enum[i](); strings.HasPrefix(sig, "if/truth-carrier/") {
+			var ci int
+			fmt.Sscanf(strings.TrimPrefix(sig, "if/truth-carrier/"), "%d", &ci)
+			tc := c06Truth()[ci]
+			want := "F|T|F||d|F|F"
+			if tc.want {
+				want = "T|F|T|yy|b|T|T"
+			}
+			pol, _ := layoutFor(sig)
+			lib := runLib(prog, pol, false)
+			res.UniqueNT = 1
+			res.AddObs("exec_steps", lib.exSteps)
+			res.AddClass("truth-carrier")
+			if lib.pan != nil || lib.err != nil || lib.out != want {
+				res.Fail("truthiness", "c06:"+sig, fmt.Sprintf("a condition holding %s (documented truth value: %v) renders %q (error %v, panic %v), want %q", tc.label, tc.want, lib.out, lib.err, lib.pan, want), prog.describe())
+			}
+			return
+		}
+	}
 	for attempt := 0; attempt < 20; attempt++ {
 		prog, sig := p.build(i, attempt)
 		_, mod, ok := modelCase(&res, "c06:"+sig+fmt.Sprintf("#%d", i), prog, gen.Canon{}, false)
@@ -499,7 +561,7 @@ func (p *c06) Run(i int) (res fw.Result) {
 }
 
 func (p *c06) Rule() string {
-	return "enumerated (exhaustive within the bound): every if-chain shape with <=3 elseif x optional else x every truth assignment; truthiness of each scalar class; every sequence kind (array literal, range, []int, []string, []Value, *[]int, [3]int, single-entry map, hash literal, nil, null, empty map) x length 0..8 x {value only, key+value, with else, nested in an outer loop with loop.parent, the outer loop's key and value read inside the inner loop} printing key, value and all seven loop fields at every position, with context variables named like every loop variable; inline-if loops for every element mask of length 1..5 and comparison conditions; non-iterables (numbers, strings, bools, structs - also the empty string, 0 and false, which are empty but no sequences) must be an error. Random: nestings of if/elseif/else and for (depth<=4) with boolean conditions from the expression region and loop fields printed at every depth. Oracle: reference model output and error-or-not. Loop fields are not printed inside inline-if bodies and the else-branch of a fully filtered non-empty loop is not exercised (stick and Twig differ there; the statement only promises which elements are rendered). Non-trivial: enumerated cases are distinct by construction; random ones need a loop nested in or containing another construct."
+	return "enumerated (exhaustive within the bound): every if-chain shape with <=3 elseif x optional else x every truth assignment; truthiness of each scalar class, and of 48 carriers of a condition value (negative and tiny numbers of every kind, NaN and infinities, decimals, strings like '0' and ' ', Stringer / Number / Boolean implementers, defined types, safe wrappers, containers, pointers) against the documented rule written out by hand, in if / not / ?: / for-if / elseif / and / or; every sequence kind (array literal, range, []int, []string, []Value, *[]int, [3]int, single-entry map, hash literal, nil, null, empty map) x length 0..8 x {value only, key+value, with else, nested in an outer loop with loop.parent, the outer loop's key and value read inside the inner loop} printing key, value and all seven loop fields at every position, with context variables named like every loop variable; inline-if loops for every element mask of length 1..5 and comparison conditions; non-iterables (numbers, strings, bools, structs - also the empty string, 0 and false, which are empty but no sequences) must be an error. Random: nestings of if/elseif/else and for (depth<=4) with boolean conditions from the expression region and loop fields printed at every depth. Oracle: reference model output and error-or-not. Loop fields are not printed inside inline-if bodies and the else-branch of a fully filtered non-empty loop is not exercised (stick and Twig differ there; the statement only promises which elements are rendered). Non-trivial: enumerated cases are distinct by construction; random ones need a loop nested in or containing another construct."
 }
 
 func (p *c06) Assumptions() []string {
